@@ -349,13 +349,24 @@ func C08(c Ctx) *report.Report {
 		for st := 0; st < 12; st++ {
 			roles := []string{"CLPDEX", "PMTPREWARDS", "MARGIN", "ETHBRIDGE", "TOKENREGISTRY"}
 			r := roles[rng.Intn(len(roles))]
-			acc := &admintypes.AdminAccount{AdminType: roleType[r], AdminAddress: subject.Addr.String()}
+			// a quarter of the edits spell the address in upper case (valid bech32, a different store key): such an entry
+			// authorises nobody, and removing it does not remove the canonical one
+			addr, upper := subject.Addr.String(), rng.Intn(4) == 0
+			if upper {
+				addr = strings.ToUpper(addr)
+				rep.Count("history.edit.upper-case-address")
+			}
+			acc := &admintypes.AdminAccount{AdminType: roleType[r], AdminAddress: addr}
 			if rng.Intn(2) == 0 {
 				mustOK(w.Tx(adminHolder, &admintypes.MsgAddAccount{Signer: adminHolder.Addr.String(), Account: acc}), "add account")
-				has[r] = true
+				if !upper {
+					has[r] = true
+				}
 			} else {
 				mustOK(w.Tx(adminHolder, &admintypes.MsgRemoveAccount{Signer: adminHolder.Addr.String(), Account: acc}), "remove account")
-				has[r] = false
+				if !upper {
+					has[r] = false
+				}
 			}
 			// the very next message, one per role
 			probe := map[string]string{"CLPDEX": "clp.SetSymmetryThreshold", "PMTPREWARDS": "clp.UpdateSwapFeeParams", "MARGIN": "margin.UpdateRowanCollateral",
